@@ -33,7 +33,11 @@ def piecewise {α} [Num α] (x : α) (xs ys : List α) : PwRes α :=
     match xs[i]?, xs[j]?, ys[i]?, ys[j]? with
     | some x0, some x1, some y0, some y1 =>
       let frac := (x - x0) / (x1 - x0)
-      .val (y0 + frac * (y1 - y0))
+      -- repair fixes/piecewise_knot.diff: exact at the right knot, and the rounded interpolant never passes `y1`
+      if Num.feq x x1 then .val y1
+      else
+        let y := y0 + frac * (y1 - y0)
+        if (y0 ≤ y1 ∧ y1 < y) ∨ (y1 ≤ y0 ∧ y < y1) then .val y1 else .val y
     | _, _, _, _ => .panic "index-out-of-range"
 
 end OW.Fn
